@@ -407,3 +407,34 @@ func vhC08New() {
 		verifAssert(*r.currentID == 0, "C08/New/auto-ids-start-at-0")
 	}
 }
+
+// C18 through the public constructor (no assumption about the representation): a
+// FiniteReplayer of capacity N, N+3 Puts; afterwards exactly the last N stored messages
+// are reachable from the replayer, the earlier ones are not.
+func vhC18FiniteHistory() {
+	n := []int{2, 3, 5, 8, 9, 10, 12, 17}[verifChoose("capacity", 8)]
+	auto := verifChoose("auto", 2) == 1
+	r, err := NewFiniteReplayer(n, auto)
+	verifAssert(err == nil && r != nil, "C18/FiniteHistory/constructed")
+	total := n + 3
+	stored := make([]*Message, 0, total)
+	for i := 0; i < total; i++ {
+		m := &Message{}
+		m.AppendData("d")
+		if !auto {
+			m.ID = ID("m" + strconv.Itoa(i))
+		}
+		got, perr := r.Put(m, []string{"t"})
+		verifAssert(perr == nil && got != nil, "C18/FiniteHistory/put-accepted")
+		stored = append(stored, got)
+	}
+	for i, m := range stored {
+		reach := verifReachable(r, m)
+		if i < total-n {
+			verifAssert(!reach, "C18/Finite/evicted-message-unreachable")
+		} else {
+			verifAssert(reach, "C18/FiniteHistory/last-N-are-kept")
+		}
+	}
+	verifCover("C18/FiniteHistory/ran")
+}
